@@ -100,6 +100,7 @@ func engDec(a []string) string {
 			return "bad-op"
 		}
 		m, err := decCP.VerifDecodePacket(b, "127.0.0.1:4739")
+		scribble(b) // the caller reuses its packet buffer before it looks at the message
 		if err != nil {
 			return "err"
 		}
